@@ -69,7 +69,7 @@ func runC14(c *Ctx) {
 	r.Rule("hunt-admin", "StartHunt filters and idempotence; StopHunt", 5)
 	runNDPSiblings(c)
 	runNDPWideArith(c)
-	r.Rule("router-fields", "each Router field comes from the like-meaning RA getter and is updated by every advertisement", 18)
+	r.Rule("router-fields", "each Router field comes from the like-meaning RA getter and is updated by every advertisement", 19)
 
 	rel := "handlers/icmp_spoofer"
 	loop := c.A.Method(rel, "Handler6", "spoofLoop")
@@ -367,6 +367,33 @@ func runC14(c *Ctx) {
 				Basis: "the store lies on every path from findOrCreateRouter to a return", Detail: det})
 		}
 	})
+	// every valid advertisement is recorded: no path from the validity check of the advertisement to a nil-error return
+	// avoids the table lookup (a sampling counter, or a "seen recently" shortcut, leaves the table behind what is advertised
+	// and a second router whose advertisements fall in the skipped slots is never learned)
+	for _, site := range callsIn(pp, func(n string, _ ssa.CallInstruction) bool {
+		return strings.HasSuffix(n, "ICMP6RouterAdvertisement).IsValid")
+	}) {
+		lookup := func(j ssa.Instruction) bool {
+			cl, ok := j.(ssa.CallInstruction)
+			return ok && cl.Common().StaticCallee() != nil && cl.Common().StaticCallee().Name() == "findOrCreateRouter"
+		}
+		us, det := core.Proved, ""
+		core.EachInstr(pp, func(j ssa.Instruction) {
+			ret, ok := j.(*ssa.Return)
+			if !ok || len(ret.Results) != 1 {
+				return
+			}
+			if k, isC := ret.Results[0].(*ssa.Const); !isC || !k.IsNil() {
+				return
+			}
+			if reachesWithout(site.(ssa.Instruction), ret, lookup) {
+				us = core.Violated
+				det = "a valid router advertisement can reach the successful return at " + c.P.Pos(core.PosOf(ret)) + " without the router-table lookup: advertisements are skipped and the table does not record what they advertise"
+			}
+		})
+		r.Add(core.Obligation{Rule: "router-fields", Key: "router-fields every valid advertisement reaches the table", Func: core.FuncName(pp), Pos: c.P.Pos(core.PosOf(site.(ssa.Instruction))), Status: us,
+			Basis: "every path from the advertisement's IsValid to a nil return passes findOrCreateRouter", Detail: det})
+	}
 	for f := range want {
 		if !seen[f] {
 			r.Add(core.Obligation{Rule: "router-fields", Key: "router-fields Router." + f, Func: core.FuncName(pp), Status: core.Violated, Detail: "Router." + f + " is no longer assigned in RA processing"})
